@@ -1,384 +1,1185 @@
 /-
-The crash protocol (AslModel/Crash.lean) on a sequence of Task visits, with all quirks off and crashes
-between handler invocations: the reachable configurations (`Inv`), that every enabled operation — a
-crash included — keeps them (`inv_step`), and that from any of them the crash-free canonical run ends
-the execution (`drain_ends`).
+The crash protocol (AslModel/Crash.lean) with all quirks off on *sequences*: Task visits (first attempts and retries),
+plain steps and Waits in any order.  `SInv` holds in every configuration reachable by any schedule — any operations
+in any order, the engine dying between handler invocations or after any number of broker operations inside one
+(`sinv_step`, `sinv_run`) —, and from any such configuration the crash-free canonical run ends the execution
+(`sdrain_ends`).
 -/
-import AslModel.Crash
+import Proofs.Lemmas.CrashInv
 namespace Asl.Crash
 
-/-- `n` Task visits in a row -/
-def tasks : Nat → Sk
-  | 0 => .done
-  | n + 1 => .task (tasks n)
+/-! ### what a handler does -/
 
-/-- the one event in flight: the visit of the first of `m` remaining Tasks -/
-def evm (id m : Nat) (start red una : Bool) : QEv :=
-  { id := id, kind := .visit (tasks m) [] start, redelivered := red, unacked := una }
+def ackRof : Option Nat → List Act
+  | some r => [.ackRp r]
+  | none => []
 
-def rpm (id : Nat) (red una : Bool) : QRp := { corr := id, redelivered := red, unacked := una }
+theorem fuelOf_succ (c : Cfg) : ∃ n, fuelOf c = n + 1 := ⟨_, rfl⟩
 
-/-- the phases of one Task visit (event `id`, `m` Tasks left including this one) -/
-inductive Phase where
-  | fresh                      -- the event is in the queue, never delivered; nothing requested yet
-  | waiting                    -- delivered, requested, the reply is on its way
-  | crashed                    -- after a crash: event and reply are ready again, the engine remembers nothing
-  | orphan                     -- after a crash the reply came first and is retained
-  | matched                    -- … and the redelivered event has registered its request again
-  deriving DecidableEq
+theorem advance_done_top (q : Quirks) (c : Cfg) (fuel ev : Nat) (rp : Option Nat) (v : Vol) (hj : v.joins = []) :
+    advance q c (fuel + 1) ev .done [] none rp v = ([.note true, .ackEv ev] ++ ackRof rp, v) := by
+  cases rp <;> simp [advance, ackRof, hj]
 
-def cfgOf (id m : Nat) (start red rr : Bool) (sent : List Nat) (running : Nat) : Phase → Cfg
-  | .fresh => { evq := [evm id m start false false], rpq := [], sent := sent, running := running, nextId := id + 1 }
-  | .waiting => { evq := [evm id m start red true], rpq := [rpm id rr false], sent := sent, running := running,
-                  nextId := id + 1, pending := [id] }
-  | .crashed => { evq := [evm id m start true false], rpq := [rpm id rr false], sent := sent, running := running,
-                  nextId := id + 1 }
-  | .orphan => { evq := [evm id m start true false], rpq := [rpm id rr true], sent := sent, running := running,
-                 nextId := id + 1, orphans := [id] }
-  | .matched => { evq := [evm id m start true true], rpq := [rpm id rr true], sent := sent, running := running,
-                  nextId := id + 1, orphans := [id], pending := [id] }
+/-- a top-level event is dropped exactly when it is delivered for the first time after the terminal notification -/
+theorem inDead_top (c : Cfg) (v : Vol) (m : QEv) {t : Sk} {start : Bool} (hk : m.kind = .visit t [] start none)
+    (hf : c.failed = 0) : inDeadJoin Quirks.none c v m = (decide (c.notes > 0) && !m.redelivered) := by
+  simp [inDeadJoin, evJids, evOwner, hk, hf]
 
-/-- the execution has ended -/
-def cfgEnd (nextId : Nat) (sent : List Nat) (running : Nat) : Cfg :=
-  { sent := sent, running := running, notes := 1, nextId := nextId }
+theorem dropEv_top (q : Quirks) (c : Cfg) (v : Vol) (m : QEv) {t : Sk} {start : Bool} (hk : m.kind = .visit t [] start none) :
+    dropEv q c v m = ([.ackEv m.id], v) := by
+  simp [dropEv, evJids, hk]
 
-/-- the reachable configurations of a run of `N` Task visits -/
-inductive Inv (N : Nat) : Cfg → Prop where
-  | run (id m : Nat) (start red rr : Bool) (sent : List Nat) (running : Nat) (p : Phase)
-      (hnd : sent.Nodup) (hle : ∀ x ∈ sent, x ≤ id)
-      (hin : (p = .fresh → id ∉ sent) ∧ (p ≠ .fresh → id ∈ sent ∧ 1 ≤ m))
-      (hlen : sent.length + m = N + (if p = .fresh then 0 else 1)) :
-      Inv N (cfgOf id m start red rr sent running p)
-  | ended (nextId : Nat) (sent : List Nat) (running : Nat) (hnd : sent.Nodup) (hlen : sent.length = N) :
-      Inv N (cfgEnd nextId sent running)
+/-- the skeleton goes on with a visit -/
+def Sk.isVisit : Sk → Bool
+  | .task _ _ => true
+  | .step _ => true
+  | .wait _ => true
+  | .par _ _ _ => true
+  | .child _ _ _ => true
+  | _ => false
 
-theorem inv_init (N : Nat) : Inv N (init (tasks N)) := by
-  have := Inv.run (N := N) 0 N true false false [] 0 .fresh (by simp) (by simp) (by simp) (by simp)
-  simpa [cfgOf, init, evm] using this
+/-- a visit follows: its event is published, then the event just handled (and the reply) acknowledged -/
+theorem advance_next (q : Quirks) (c : Cfg) (fuel ev : Nat) (rest : Sk) (stack : List Frame) (owner : Option Nat)
+    (rp : Option Nat) (v : Vol) (h : rest.isVisit = true) :
+    advance q c (fuel + 1) ev rest stack owner rp v =
+      ([.pubEv (.visit rest stack false owner), .ackEv ev] ++ ackRof rp, v) := by
+  cases rest <;> simp [Sk.isVisit] at h <;> cases rp <;> simp [advance, ackRof]
 
-macro "crash_simp" " at " h:ident : tactic => `(tactic|
-  simp [step, cfgOf, cfgEnd, findEv, evm, markEv, markRpL, tasks, Quirks.none, Cfg.handler, Cfg.vol, Cfg.withVol, Cfg.act,
-    Cfg.crash, insertNat, rpm, onReply, advance, fuelOf, removeFirst] at $h:ident)
+def preOf (start : Bool) : List Act := if start then [.note false] else []
 
-/-- building `Inv` for a configuration given as a literal -/
-theorem inv_of_eq {N : Nat} {c d : Cfg} (h : Inv N d) (e : d = c) : Inv N c := e ▸ h
+def ackRq (rp : Option Nat) (l : List QRp) : List QRp :=
+  match rp with
+  | none => l
+  | some r => removeFirst (fun x => x.corr == r && x.unacked) l
 
-section
-variable {N : Nat}
+/-- the configuration after "publish the successor, acknowledge the event (and the reply)" -/
+theorem fold_next (c : Cfg) (start : Bool) (k : EvKind) (id : Nat) (rp : Option Nat) :
+    List.foldl Cfg.act c (preOf start ++ ([Act.pubEv k, Act.ackEv id] ++ ackRof rp)) =
+      { c with evq := (c.evq ++ [({ id := c.nextId, kind := k } : QEv)]).filter (ackP id), nextId := c.nextId + 1,
+               batches := c.batches ++ batchKey k, running := c.running + (if start then 1 else 0),
+               rpq := ackRq rp c.rpq } := by
+  cases start <;> cases rp <;> rfl
 
-/-- the Task visit of event `id` is over (its reply has been handled): the next visit's event is in the queue, or
-the execution has ended -/
-theorem inv_next (id m : Nat) (sent : List Nat) (running : Nat)
-    (hnd : sent.Nodup) (hle : ∀ x ∈ sent, x ≤ id) (hlen : sent.length + (m + 1) = N + 1) :
-    (m = 0 → Inv N (cfgEnd (id + 1) sent running)) ∧
-    (m ≠ 0 → Inv N (cfgOf (id + 1) m false false false sent running .fresh)) := by
-  constructor
-  · intro h; exact Inv.ended _ _ _ hnd (by omega)
-  · intro h
-    exact Inv.run (id + 1) m false false false sent running .fresh hnd (fun x hx => Nat.le_succ_of_le (hle x hx))
-      ⟨fun _ hc => absurd (hle _ hc) (by omega), fun hc => absurd rfl hc⟩ (by simp; omega)
+/-- … after "terminal notification, acknowledge the event (and the reply)" -/
+theorem fold_end (c : Cfg) (start : Bool) (id : Nat) (rp : Option Nat) :
+    List.foldl Cfg.act c (preOf start ++ ([Act.note true, Act.ackEv id] ++ ackRof rp)) =
+      { c with evq := c.evq.filter (ackP id), notes := c.notes + 1, running := c.running + (if start then 1 else 0),
+               rpq := ackRq rp c.rpq } := by
+  cases start <;> cases rp <;> rfl
 
-theorem inv_step (c c' : Cfg) (op : Op) (h : Inv N c) (hs : step Quirks.none c op none = some c') : Inv N c' := by
-  cases h with
-  | ended nextId sent running hnd hlen =>
-    cases op <;> crash_simp at hs
-    all_goals (subst hs; exact inv_of_eq (Inv.ended nextId sent running hnd hlen) (by simp [cfgEnd]))
-  | run id m start red rr sent running p hnd hle hin hlen =>
-    cases p with
-    | fresh =>
-      have hnin := hin.1 rfl
-      simp only [if_true] at hlen
-      cases op with
-      | ev j =>
-        by_cases hj : j = id
-        · subst hj
-          cases m with
-          | zero =>
-            cases start <;> crash_simp at hs <;> subst hs
-            · exact inv_of_eq (Inv.ended (j + 1) sent running hnd (by omega)) (by simp [cfgEnd])
-            · exact inv_of_eq (Inv.ended (j + 1) sent (running + 1) hnd (by omega)) (by simp [cfgEnd])
-          | succ m =>
-            have hnd' : (sent ++ [j]).Nodup := by
-              simp [List.nodup_append, hnd]; intro a ha e; exact hnin (e ▸ ha)
-            have hle' : ∀ x ∈ sent ++ [j], x ≤ j := by
-              intro x hx; simp at hx; rcases hx with h | h
-              · exact hle x h
-              · omega
-            cases start <;> crash_simp at hs <;> subst hs
-            · exact inv_of_eq (Inv.run j (m + 1) false false false (sent ++ [j]) running .waiting hnd' hle'
-                (by simp) (by simp; omega)) (by simp [cfgOf, evm, rpm, tasks])
-            · exact inv_of_eq (Inv.run j (m + 1) true false false (sent ++ [j]) (running + 1) .waiting hnd' hle'
-                (by simp) (by simp; omega)) (by simp [cfgOf, evm, rpm, tasks])
-        · have hj' : ¬ id = j := fun e => hj e.symm
-          simp [step, cfgOf, findEv, evm, hj'] at hs
-      | tm j => crash_simp at hs
-      | rp j => crash_simp at hs
-      | tick =>
-        crash_simp at hs; subst hs
-        exact inv_of_eq (Inv.run id m start red rr sent running .fresh hnd hle hin (by simpa using hlen))
-          (by simp [cfgOf, evm])
-      | crash =>
-        crash_simp at hs; subst hs
-        exact inv_of_eq (Inv.run id m start red rr sent running .fresh hnd hle hin (by simpa using hlen))
-          (by simp [cfgOf, evm])
-    | waiting =>
-      obtain ⟨hmem, hm1⟩ := hin.2 (by simp)
-      simp only [reduceCtorEq, if_false] at hlen
-      obtain ⟨m, rfl⟩ : ∃ k, m = k + 1 := ⟨m - 1, by omega⟩
-      have same : Inv N (cfgOf id (m + 1) start red rr sent running .waiting) :=
-        Inv.run id (m + 1) start red rr sent running .waiting hnd hle (by simp [hmem]) (by simp; omega)
-      cases op with
-      | ev j =>
-        by_cases hj : j = id
-        · subst hj; crash_simp at hs
-        · have hj' : ¬ id = j := fun e => hj e.symm
-          simp [step, cfgOf, findEv, evm, hj'] at hs
-      | tm j =>
-        by_cases hj : j = id
-        · subst hj
-          crash_simp at hs; subst hs
-          exact inv_of_eq same (by simp [cfgOf, evm, rpm, tasks])
-        · have hj' : ¬ id = j := fun e => hj e.symm
-          simp [step, cfgOf, findEv, evm, hj'] at hs
-      | rp j =>
-        by_cases hj : j = id
-        · subst hj
-          have nx := inv_next (N := N) j m sent running hnd hle (by omega)
-          cases m with
-          | zero =>
-            crash_simp at hs; subst hs
-            exact inv_of_eq (nx.1 rfl) (by simp [cfgEnd])
-          | succ m =>
-            crash_simp at hs; subst hs
-            exact inv_of_eq (nx.2 (by omega)) (by simp [cfgOf, evm, tasks])
-        · have hj' : ¬ id = j := fun e => hj e.symm
-          simp [step, cfgOf, rpm, hj'] at hs
-      | tick =>
-        crash_simp at hs; subst hs
-        exact inv_of_eq same (by simp [cfgOf, evm, rpm, tasks])
-      | crash =>
-        crash_simp at hs; subst hs
-        exact inv_of_eq (Inv.run id (m + 1) start true rr sent running .crashed hnd hle (by simp [hmem])
-          (by simp; omega)) (by simp [cfgOf, evm, rpm, tasks])
-    | crashed =>
-      obtain ⟨hmem, hm1⟩ := hin.2 (by simp)
-      simp only [reduceCtorEq, if_false] at hlen
-      obtain ⟨m, rfl⟩ : ∃ k, m = k + 1 := ⟨m - 1, by omega⟩
-      cases op with
-      | ev j =>
-        by_cases hj : j = id
-        · subst hj
-          cases start <;> crash_simp at hs <;> subst hs
-          · exact inv_of_eq (Inv.run j (m + 1) false true rr sent running .waiting hnd hle (by simp [hmem])
-              (by simp; omega)) (by simp [cfgOf, evm, rpm, tasks])
-          · exact inv_of_eq (Inv.run j (m + 1) true true rr sent (running + 1) .waiting hnd hle (by simp [hmem])
-              (by simp; omega)) (by simp [cfgOf, evm, rpm, tasks])
-        · have hj' : ¬ id = j := fun e => hj e.symm
-          simp [step, cfgOf, findEv, evm, hj'] at hs
-      | tm j => crash_simp at hs
-      | rp j =>
-        by_cases hj : j = id
-        · subst hj
-          crash_simp at hs; subst hs
-          exact inv_of_eq (Inv.run j (m + 1) start true rr sent running .orphan hnd hle (by simp [hmem])
-            (by simp; omega)) (by simp [cfgOf, evm, rpm, tasks])
-        · have hj' : ¬ id = j := fun e => hj e.symm
-          simp [step, cfgOf, rpm, hj'] at hs
-      | tick =>
-        crash_simp at hs; subst hs
-        exact inv_of_eq (Inv.run id (m + 1) start true rr sent running .crashed hnd hle (by simp [hmem])
-          (by simp; omega)) (by simp [cfgOf, evm, rpm, tasks])
-      | crash =>
-        crash_simp at hs; subst hs
-        exact inv_of_eq (Inv.run id (m + 1) start true rr sent running .crashed hnd hle (by simp [hmem])
-          (by simp; omega)) (by simp [cfgOf, evm, rpm, tasks])
-    | orphan =>
-      obtain ⟨hmem, hm1⟩ := hin.2 (by simp)
-      simp only [reduceCtorEq, if_false] at hlen
-      obtain ⟨m, rfl⟩ : ∃ k, m = k + 1 := ⟨m - 1, by omega⟩
-      cases op with
-      | ev j =>
-        by_cases hj : j = id
-        · subst hj
-          cases start <;> crash_simp at hs <;> subst hs
-          · exact inv_of_eq (Inv.run j (m + 1) false true rr sent running .matched hnd hle (by simp [hmem])
-              (by simp; omega)) (by simp [cfgOf, evm, rpm, tasks])
-          · exact inv_of_eq (Inv.run j (m + 1) true true rr sent (running + 1) .matched hnd hle (by simp [hmem])
-              (by simp; omega)) (by simp [cfgOf, evm, rpm, tasks])
-        · have hj' : ¬ id = j := fun e => hj e.symm
-          simp [step, cfgOf, findEv, evm, hj'] at hs
-      | tm j => crash_simp at hs
-      | rp j => crash_simp at hs
-      | tick =>
-        crash_simp at hs; subst hs
-        exact inv_of_eq (Inv.run id (m + 1) start true rr sent running .orphan hnd hle (by simp [hmem])
-          (by simp; omega)) (by simp [cfgOf, evm, rpm, tasks])
-      | crash =>
-        crash_simp at hs; subst hs
-        exact inv_of_eq (Inv.run id (m + 1) start true true sent running .crashed hnd hle (by simp [hmem])
-          (by simp; omega)) (by simp [cfgOf, evm, rpm, tasks])
-    | matched =>
-      obtain ⟨hmem, hm1⟩ := hin.2 (by simp)
-      simp only [reduceCtorEq, if_false] at hlen
-      obtain ⟨m, rfl⟩ : ∃ k, m = k + 1 := ⟨m - 1, by omega⟩
-      have same : Inv N (cfgOf id (m + 1) start red rr sent running .matched) :=
-        Inv.run id (m + 1) start red rr sent running .matched hnd hle (by simp [hmem]) (by simp; omega)
-      cases op with
-      | ev j =>
-        by_cases hj : j = id
-        · subst hj; crash_simp at hs
-        · have hj' : ¬ id = j := fun e => hj e.symm
-          simp [step, cfgOf, findEv, evm, hj'] at hs
-      | tm j =>
-        by_cases hj : j = id
-        · subst hj
-          crash_simp at hs; subst hs
-          exact inv_of_eq same (by simp [cfgOf, evm, rpm, tasks])
-        · have hj' : ¬ id = j := fun e => hj e.symm
-          simp [step, cfgOf, findEv, evm, hj'] at hs
-      | rp j => crash_simp at hs
-      | tick =>
-        have nx := inv_next (N := N) id m sent running hnd hle (by omega)
-        cases m with
-        | zero =>
-          crash_simp at hs; subst hs
-          exact inv_of_eq (nx.1 rfl) (by simp [cfgEnd])
-        | succ m =>
-          crash_simp at hs; subst hs
-          exact inv_of_eq (nx.2 (by omega)) (by simp [cfgOf, evm, tasks])
-      | crash =>
-        crash_simp at hs; subst hs
-        exact inv_of_eq (Inv.run id (m + 1) start true true sent running .crashed hnd hle (by simp [hmem])
-          (by simp; omega)) (by simp [cfgOf, evm, rpm, tasks])
+theorem fold_pre (c : Cfg) (start : Bool) :
+    (preOf start).foldl Cfg.act c = { c with running := c.running + (if start then 1 else 0) } := by
+  cases start <;> simp [preOf, Cfg.act]
 
-/-- Task visits still to come -/
-def skLen : Sk → Nat
-  | .task r => skLen r + 1
+theorem fold_send_pre (c : Cfg) (start : Bool) (id : Nat) :
+    List.foldl Cfg.act c ([Act.pubReq id] ++ preOf start) =
+      { c with sent := c.sent ++ [id], rpq := c.rpq ++ [({ corr := id } : QRp)], running := c.running + (if start then 1 else 0) } := by
+  cases start <;> simp [preOf, Cfg.act]
+
+/-! ### ordered handlers -/
+
+theorem ok_pre {K : EvKind → Prop} {c : Cfg} (start : Bool) {acts : List Act}
+    (h : ∀ d : Cfg, d.evq = c.evq → d.rpq = c.rpq → d.sent = c.sent → d.nextId = c.nextId → d.notes = c.notes → ok K d acts) :
+    ok K c (preOf start ++ acts) := by
+  cases start
+  · exact h c rfl rfl rfl rfl rfl
+  · exact ⟨trivial, h _ rfl rfl rfl rfl rfl⟩
+
+theorem ok_pre_only {K : EvKind → Prop} (c : Cfg) (start : Bool) : ok K c (preOf start) := by
+  cases start
+  · trivial
+  · exact ⟨trivial, trivial⟩
+
+/-- after the event `m` (unacknowledged) has been acknowledged no event has its id -/
+theorem no_id_after_ack {l1 l2 l3 : List QEv} {m : QEv} (h1 : ∀ e ∈ l1, e.id ≠ m.id) (h2 : ∀ e ∈ l2, e.id ≠ m.id)
+    (h3 : ∀ e ∈ l3, e.id ≠ m.id) (hm : m.unacked = true) :
+    ∀ p ∈ (((l1 ++ m :: l2 ++ l3).filter (ackP m.id)).map (fun e => (e.id, e.kind))), p.1 ≠ m.id := by
+  rw [ack_split h1 h2 h3 hm]
+  intro p hp
+  obtain ⟨e, he, rfl⟩ := List.mem_map.mp hp
+  simp only [List.mem_append] at he
+  rcases he with (he | he) | he
+  · exact h1 e he
+  · exact h2 e he
+  · exact h3 e he
+
+/-- the handler of event `m` (delivered, so unacknowledged) that publishes a successor and acknowledges -/
+theorem ok_next {K : EvKind → Prop} {c : Cfg} {l1 l2 : List QEv} {m : QEv} {k : EvKind} (start : Bool) (rp : Option Nat)
+    (he : c.evq = l1 ++ m :: l2) (h1 : ∀ e ∈ l1, e.id ≠ m.id) (h2 : ∀ e ∈ l2, e.id ≠ m.id) (hm : m.unacked = true)
+    (hlt : m.id < c.nextId) (hk : K k) (hrp : ∀ r, rp = some r → r = m.id) :
+    ok K c (preOf start ++ ([.pubEv k, .ackEv m.id] ++ ackRof rp)) := by
+  apply ok_pre
+  intro d hev _ _ hn _
+  rw [← hev] at he; rw [← hn] at hlt
+  refine ⟨hk, ?_, ?_⟩
+  · right
+    refine ⟨(d.nextId, k), ?_, ?_⟩
+    · simp [evK, Cfg.act]
+    · simp; omega
+  · cases rp with
+    | none => trivial
+    | some r =>
+      obtain rfl := hrp r rfl
+      refine ⟨?_, trivial⟩
+      show ∀ p ∈ evK ((d.act (.pubEv k)).act (.ackEv m.id)), p.1 ≠ m.id
+      simp only [evK, act_ackEv_evq]
+      have : (d.act (.pubEv k)).evq = l1 ++ m :: l2 ++ [{ id := d.nextId, kind := k }] := by simp [Cfg.act, he]
+      rw [this]
+      exact no_id_after_ack h1 h2 (by intro e he; simp at he; subst he; simp; omega) hm
+
+/-- … or that ends the execution -/
+theorem ok_end {K : EvKind → Prop} {c : Cfg} {l1 l2 : List QEv} {m : QEv} (start : Bool) (rp : Option Nat)
+    (he : c.evq = l1 ++ m :: l2) (h1 : ∀ e ∈ l1, e.id ≠ m.id) (h2 : ∀ e ∈ l2, e.id ≠ m.id) (hm : m.unacked = true)
+    (hrp : ∀ r, rp = some r → r = m.id) :
+    ok K c (preOf start ++ ([.note true, .ackEv m.id] ++ ackRof rp)) := by
+  apply ok_pre
+  intro d hev _ _ _ _
+  rw [← hev] at he
+  refine ⟨trivial, ?_, ?_⟩
+  · left; show 1 ≤ d.notes + 1; omega
+  · cases rp with
+    | none => trivial
+    | some r =>
+      obtain rfl := hrp r rfl
+      refine ⟨?_, trivial⟩
+      show ∀ p ∈ evK ((d.act (.note true)).act (.ackEv m.id)), p.1 ≠ m.id
+      simp only [evK, act_ackEv_evq]
+      have : (d.act (.note true)).evq = l1 ++ m :: l2 ++ [] := by simp [Cfg.act, he]
+      rw [this]
+      exact no_id_after_ack h1 h2 (by intro e he; cases he) hm
+
+/-- the request of Task event `m`, not on record as sent -/
+theorem ok_send {K : EvKind → Prop} {c : Cfg} {m : QEv} (start : Bool) (hm : m ∈ c.evq) (ht : isTaskKind m.kind = true)
+    (hns : m.id ∉ c.sent) : ok K c ([.pubReq m.id] ++ preOf start) :=
+  ⟨⟨⟨(m.id, m.kind), mem_evK hm, rfl, ht⟩, hns⟩, ok_pre_only _ start⟩
+
+/-! ### sequences -/
+
+def Sk.seq : Sk → Bool
+  | .done => true
+  | .task _ r => r.seq
+  | .step r => r.seq
+  | .wait r => r.seq
+  | _ => false
+
+def seqKind : EvKind → Bool
+  | .visit t [] _ none => t.seq
+  | _ => false
+
+abbrev SeqK (k : EvKind) : Prop := seqKind k = true
+
+structure SInv (c : Cfg) : Prop where
+  dur : Dur SeqK c
+  vol : VolI c
+  nojoin : c.joins = []
+
+theorem seqKind_inv {k : EvKind} (h : seqKind k = true) : ∃ t start, k = .visit t [] start none ∧ t.seq = true := by
+  cases k with
+  | visit t stack start owner =>
+    cases stack with
+    | nil => cases owner with
+      | none => exact ⟨t, start, rfl, h⟩
+      | some _ => simp [seqKind] at h
+    | cons _ _ => simp [seqKind] at h
+  | reenter _ _ _ _ => simp [seqKind] at h
+
+/-- a sequence goes on with a visit or is over -/
+theorem seq_cases {t : Sk} (h : t.seq = true) : t = .done ∨ (t.isVisit = true ∧ seqKind (.visit t [] false none) = true) := by
+  cases t <;> simp [Sk.seq, Sk.isVisit, seqKind] at h ⊢ <;> exact h
+
+mutual
+/-- visits still to come (a fan-out state: its own two handler invocations, its branches, one unit per branch for the
+join, and what follows) -/
+def visits : Sk → Nat
+  | .task _ r => visits r + 1
+  | .step r => visits r + 1
+  | .wait r => visits r + 1
+  | .par _ brs r => brVisits brs + visits r + 2
   | _ => 0
+def brVisits : Br → Nat
+  | .nil => 0
+  | .cons b bs => visits b + 1 + brVisits bs
+end
 
-theorem skLen_tasks (m : Nat) : skLen (tasks m) = m := by
-  induction m with
-  | zero => rfl
-  | succ m ih => simp [tasks, skLen, ih]
+def todoOf : EvKind → Sk
+  | .visit t _ _ _ => t
+  | .reenter _ _ _ _ => .done
 
-/-- what is left to do: three units per Task visit to come, less what the current one has done -/
+def evW (e : QEv) : Nat := 8 * visits (todoOf e.kind) + (if e.unacked then 1 else 6)
+
+/-- what is left to do: eight units per visit to come, less what the event in hand has done, plus the armed timers and
+the replies waiting to be delivered -/
 def mu (c : Cfg) : Nat :=
-  match c.evq with
-  | [e] => (match e.kind with
-    | .visit todo _ _ => 3 * skLen todo + (if e.unacked then 1 else 2)
-    | _ => 0)
+  (c.evq.map evW).sum + 3 * c.timers.length + (c.rpq.filter (fun r => !r.unacked)).length
+
+mutual
+/-- Task visits still to come -/
+def tasksIn : Sk → Nat
+  | .task _ r => tasksIn r + 1
+  | .step r => tasksIn r
+  | .wait r => tasksIn r
+  | .par _ brs r => brTasks brs + tasksIn r
+  | .child _ sub r => tasksIn sub + tasksIn r + 1
   | _ => 0
+def brTasks : Br → Nat
+  | .nil => 0
+  | .cons b bs => tasksIn b + brTasks bs
+end
 
-/-- an execution that has not ended can take the next step of the canonical schedule, stays among the reachable
-configurations, and has less left to do -/
-theorem inv_progress (c : Cfg) (h : Inv N c) :
-    (∃ nextId sent running, c = cfgEnd nextId sent running ∧ sent.Nodup ∧ sent.length = N) ∨
-    (∃ op c', nextOp c = some op ∧ step Quirks.none c op none = some c' ∧ Inv N c' ∧ mu c' < mu c) := by
-  cases h with
-  | ended nextId sent running hnd hlen => exact Or.inl ⟨nextId, sent, running, rfl, hnd, hlen⟩
-  | run id m start red rr sent running p hnd hle hin hlen =>
-    right
-    have H := Inv.run (N := N) id m start red rr sent running p hnd hle hin hlen
-    have key : ∀ op c', nextOp (cfgOf id m start red rr sent running p) = some op →
-        step Quirks.none (cfgOf id m start red rr sent running p) op none = some c' →
-        mu c' < mu (cfgOf id m start red rr sent running p) →
-        ∃ op c', nextOp (cfgOf id m start red rr sent running p) = some op ∧
-          step Quirks.none (cfgOf id m start red rr sent running p) op none = some c' ∧ Inv N c' ∧
-          mu c' < mu (cfgOf id m start red rr sent running p) :=
-      fun op c' h1 h2 h3 => ⟨op, c', h1, h2, inv_step _ _ _ H h2, h3⟩
-    cases p with
-    | fresh =>
-      cases m with
-      | zero =>
-        cases start
-        · exact key (.ev id) (cfgEnd (id + 1) sent running) (by simp [nextOp, cfgOf, evm])
-            (by simp [step, cfgOf, cfgEnd, findEv, evm, markEv, tasks, Quirks.none, Cfg.handler, Cfg.vol, Cfg.withVol, Cfg.act, advance, fuelOf])
-            (by simp [mu, cfgOf, cfgEnd, evm, tasks, skLen])
-        · exact key (.ev id) (cfgEnd (id + 1) sent (running + 1)) (by simp [nextOp, cfgOf, evm])
-            (by simp [step, cfgOf, cfgEnd, findEv, evm, markEv, tasks, Quirks.none, Cfg.handler, Cfg.vol, Cfg.withVol, Cfg.act, advance, fuelOf])
-            (by simp [mu, cfgOf, cfgEnd, evm, tasks, skLen])
-      | succ m =>
-        cases start
-        · exact key (.ev id) (cfgOf id (m + 1) false false false (sent ++ [id]) running .waiting)
-            (by simp [nextOp, cfgOf, evm])
-            (by simp [step, cfgOf, findEv, evm, markEv, tasks, Quirks.none, Cfg.handler, Cfg.vol, Cfg.withVol, Cfg.act, insertNat, rpm])
-            (by simp [mu, cfgOf, evm])
-        · exact key (.ev id) (cfgOf id (m + 1) true false false (sent ++ [id]) (running + 1) .waiting)
-            (by simp [nextOp, cfgOf, evm])
-            (by simp [step, cfgOf, findEv, evm, markEv, tasks, Quirks.none, Cfg.handler, Cfg.vol, Cfg.withVol, Cfg.act, insertNat, rpm])
-            (by simp [mu, cfgOf, evm])
-    | waiting =>
-      obtain ⟨hmem, hm1⟩ := hin.2 (by simp)
-      obtain ⟨m, rfl⟩ : ∃ k, m = k + 1 := ⟨m - 1, by omega⟩
-      cases m with
-      | zero =>
-        exact key (.rp id) (cfgEnd (id + 1) sent running) (by simp [nextOp, cfgOf, evm, rpm])
-          (by simp [step, cfgOf, cfgEnd, findEv, evm, markRpL, tasks, Quirks.none, Cfg.handler, Cfg.vol, Cfg.withVol, Cfg.act, rpm, onReply, advance, fuelOf, removeFirst])
-          (by simp [mu, cfgOf, cfgEnd, evm, tasks, skLen])
-      | succ m =>
-        exact key (.rp id) (cfgOf (id + 1) (m + 1) false false false sent running .fresh) (by simp [nextOp, cfgOf, evm, rpm])
-          (by simp [step, cfgOf, findEv, evm, markRpL, tasks, Quirks.none, Cfg.handler, Cfg.vol, Cfg.withVol, Cfg.act, rpm, onReply, advance, fuelOf, removeFirst])
-          (by simp [mu, cfgOf, evm, tasks, skLen, skLen_tasks]; omega)
-    | crashed =>
-      obtain ⟨hmem, hm1⟩ := hin.2 (by simp)
-      obtain ⟨m, rfl⟩ : ∃ k, m = k + 1 := ⟨m - 1, by omega⟩
-      cases start
-      · exact key (.ev id) (cfgOf id (m + 1) false true rr sent running .waiting) (by simp [nextOp, cfgOf, evm])
-          (by simp [step, cfgOf, findEv, evm, markEv, tasks, Quirks.none, Cfg.handler, Cfg.vol, Cfg.withVol, Cfg.act, insertNat, rpm])
-          (by simp [mu, cfgOf, evm])
-      · exact key (.ev id) (cfgOf id (m + 1) true true rr sent (running + 1) .waiting) (by simp [nextOp, cfgOf, evm])
-          (by simp [step, cfgOf, findEv, evm, markEv, tasks, Quirks.none, Cfg.handler, Cfg.vol, Cfg.withVol, Cfg.act, insertNat, rpm])
-          (by simp [mu, cfgOf, evm])
-    | orphan =>
-      obtain ⟨hmem, hm1⟩ := hin.2 (by simp)
-      obtain ⟨m, rfl⟩ : ∃ k, m = k + 1 := ⟨m - 1, by omega⟩
-      cases start
-      · exact key (.ev id) (cfgOf id (m + 1) false true rr sent running .matched) (by simp [nextOp, cfgOf, evm])
-          (by simp [step, cfgOf, findEv, evm, markEv, tasks, Quirks.none, Cfg.handler, Cfg.vol, Cfg.withVol, Cfg.act, insertNat, rpm])
-          (by simp [mu, cfgOf, evm])
-      · exact key (.ev id) (cfgOf id (m + 1) true true rr sent (running + 1) .matched) (by simp [nextOp, cfgOf, evm])
-          (by simp [step, cfgOf, findEv, evm, markEv, tasks, Quirks.none, Cfg.handler, Cfg.vol, Cfg.withVol, Cfg.act, insertNat, rpm])
-          (by simp [mu, cfgOf, evm])
-    | matched =>
-      obtain ⟨hmem, hm1⟩ := hin.2 (by simp)
-      obtain ⟨m, rfl⟩ : ∃ k, m = k + 1 := ⟨m - 1, by omega⟩
-      cases m with
-      | zero =>
-        exact key .tick (cfgEnd (id + 1) sent running) (by simp [nextOp, cfgOf, evm, rpm])
-          (by simp [step, cfgOf, cfgEnd, findEv, evm, tasks, Quirks.none, Cfg.handler, Cfg.vol, Cfg.withVol, Cfg.act, rpm, onReply, advance, fuelOf, removeFirst])
-          (by simp [mu, cfgOf, cfgEnd, evm, tasks, skLen])
-      | succ m =>
-        exact key .tick (cfgOf (id + 1) (m + 1) false false false sent running .fresh) (by simp [nextOp, cfgOf, evm, rpm])
-          (by simp [step, cfgOf, findEv, evm, tasks, Quirks.none, Cfg.handler, Cfg.vol, Cfg.withVol, Cfg.act, rpm, onReply, advance, fuelOf, removeFirst])
-          (by simp [mu, cfgOf, evm, tasks, skLen, skLen_tasks]; omega)
+/-- requests sent plus Task visits the events in the queue still have before them -/
+def load (c : Cfg) : Nat := c.sent.length + (c.evq.map (fun e => tasksIn (todoOf e.kind))).sum
+/-- events whose request is out -/
+def inflight (c : Cfg) : Nat := (c.evq.filter (fun e => c.sent.contains e.id)).length
 
-/-- from any reachable configuration the crash-free canonical run ends the execution: one terminal
-notification, every one of the `N` requests sent exactly once, nothing left in the queues or in the engine -/
-theorem drain_ends (fuel : Nat) (c : Cfg) (h : Inv N c) (hf : mu c ≤ fuel) :
-    ∃ nextId sent running, drain Quirks.none fuel c = cfgEnd nextId sent running ∧ sent.Nodup ∧ sent.length = N := by
+/-- conserved as long as no handler is cut short: one thread of control (an event, or the terminal notification), `N`
+Task visits in all (sent, or still to come), and no reply without its event -/
+structure Cons (N : Nat) (c : Cfg) : Prop where
+  psi : c.notes + c.evq.length = 1
+  phi : load c = N + inflight c
+  fresh : ∀ r ∈ c.rpq, ∃ e ∈ c.evq, e.id = r.corr
+
+/-- the outcome of a handler invocation: the invariant holds again and, when it was not cut short, there is less left
+to do (`dec`: for the operations the canonical schedule uses) -/
+structure Good (c c' : Cfg) (cut : Option Nat) (dec : Prop) : Prop where
+  inv : SInv c'
+  less : cut = none → dec → mu c' < mu c
+  cons : cut = none → ∀ N, Cons N c → Cons N c'
+
+theorem good_handler {c c1 : Cfg} {acts : List Act} {v : Vol} {dec : Prop} (cut : Option Nat) (hd : Dur SeqK c1)
+    (hok : ok SeqK c1 acts) (hj : v.joins = [])
+    (hv : VolI ((acts.foldl Cfg.act c1).withVol v) ∧ (dec → mu ((acts.foldl Cfg.act c1).withVol v) < mu c) ∧
+      (∀ N, Cons N c → Cons N ((acts.foldl Cfg.act c1).withVol v))) :
+    Good c (c1.handler acts v cut) cut dec := by
+  cases cut with
+  | none => exact ⟨⟨(hd.all hok).withVol v, hv.1, hj⟩, fun _ hdec => hv.2.1 hdec, fun _ => hv.2.2⟩
+  | some k => exact ⟨⟨(hd.take hok k).crash, VolI.crash _, rfl⟩, fun hc => (by cases hc), fun hc => (by cases hc)⟩
+
+theorem length_insertNat_new {x : Nat} {xs : List Nat} (h : x ∉ xs) : (insertNat x xs).length = xs.length + 1 := by
+  unfold insertNat
+  simp [h]
+
+theorem length_erase_mem {x : Nat} {xs : List Nat} (h : x ∈ xs) : (xs.erase x).length + 1 = xs.length := by
+  rw [List.length_erase_of_mem h]
+  have : 0 < xs.length := List.length_pos_of_mem h
+  omega
+
+macro "cons_tac" "[" ts:Lean.Parser.Tactic.simpLemma,* "]" : tactic => `(tactic|
+  (intro N hcons
+   obtain ⟨hpsi, hphi, hfresh⟩ := hcons
+   refine ⟨?_, ?_, ?_⟩
+   · simp only [Cfg.withVol, List.foldl, List.length_append, List.length_cons, List.length_nil, $ts,*] at hpsi ⊢ <;> omega
+   · simp only [load, inflight, Cfg.withVol, List.foldl, List.map_append, List.map_cons, List.map_nil, List.sum_append,
+       List.sum_cons, List.sum_nil, List.filter_append, List.filter_cons, List.filter_nil, List.length_append,
+       List.length_cons, List.length_nil, todoOf, tasksIn, Bool.false_eq_true, if_true, if_false, $ts,*] at hphi ⊢ <;> omega
+   · simp only [Cfg.withVol, List.foldl, $ts,*] at hfresh ⊢ <;> grind))
+
+macro "mu_tac" "[" ts:Lean.Parser.Tactic.simpLemma,* "]" : tactic => `(tactic|
+  (simp only [mu, evW, Cfg.withVol, Cfg.vol, List.foldl, List.map_append, List.map_cons, List.map_nil, List.sum_append,
+      List.sum_cons, List.sum_nil, List.filter_append, List.filter_cons, List.filter_nil, List.length_append,
+      List.length_cons, List.length_nil, todoOf, visits, Bool.not_true, Bool.not_false, Bool.false_eq_true, if_true, if_false, $ts,*]
+   <;> omega))
+
+theorem sinv_init (sk : Sk) (h : sk.seq = true) : SInv (init sk) := by
+  refine ⟨?_, ?_, rfl⟩
+  · constructor <;> simp [init, evK, rpC]
+    show seqKind _ = true
+    simpa [seqKind] using h
+  · constructor <;> simp [init, uEv, uRp]
+
+/-- the delivered event `m`, marked: the queue around it -/
+theorem markEv_split {c : Cfg} {l1 l2 : List QEv} {m : QEv} (he : c.evq = l1 ++ m :: l2) (h1 : ∀ e ∈ l1, e.id ≠ m.id)
+    (h2 : ∀ e ∈ l2, e.id ≠ m.id) (hu : m.unacked = false) :
+    ∃ m' : QEv, m'.id = m.id ∧ m'.kind = m.kind ∧ m'.unacked = true ∧
+      markEv c m.id = { c with evq := l1 ++ m' :: l2 } := by
+  refine ⟨{ m with unacked := true }, rfl, rfl, rfl, ?_⟩
+  show { c with evq := c.evq.map (markOne m.id) } = _
+  rw [he, mark_split h1 h2 hu]
+
+
+theorem mem_uRp_ne {l : List QRp} {corr : Nat} (h : ∀ e ∈ l, e.corr ≠ corr) : corr ∉ uRp l := by
+  intro hx; obtain ⟨e, he', _, hid⟩ := mem_uRp.mp hx; exact h e he' hid
+
+theorem mem_uEv_ne {l : List QEv} {id : Nat} (h : ∀ e ∈ l, e.id ≠ id) : id ∉ uEv l := by
+  intro hx; obtain ⟨e, he', _, hid⟩ := mem_uEv.mp hx; exact h e he' hid
+
+macro "voli_grind" : tactic => `(tactic|
+  (constructor <;> simp only [Cfg.withVol, Cfg.vol, List.foldl] <;>
+    simp only [uEv_append, uEv_cons, uEv_nil, uRp_append, uRp_cons, uRp_nil, mem_insertNat, List.mem_append, List.mem_cons,
+      List.mem_singleton, List.not_mem_nil, or_false, false_or] at * <;>
+    grind [timerKind, isTaskKind]))
+
+/-- … after rewriting the queues with the given equations -/
+macro "voli_grind_with" "[" ts:Lean.Parser.Tactic.simpLemma,* "]" : tactic => `(tactic|
+  (constructor <;> simp only [Cfg.withVol, Cfg.vol, List.foldl, $ts,*] <;>
+    simp only [uEv_append, uEv_cons, uEv_nil, uRp_append, uRp_cons, uRp_nil, mem_insertNat, List.mem_append, List.mem_cons,
+      List.mem_singleton, List.not_mem_nil, or_false, false_or] at * <;>
+    grind [timerKind, isTaskKind]))
+
+theorem good_ev (c c' : Cfg) (id : Nat) (cut : Option Nat) (h : SInv c)
+    (hs : step Quirks.none c (.ev id) cut = some c') : Good c c' cut True := by
+  unfold step at hs
+  rw [if_neg (by simp [h.dur.nodiv])] at hs
+  simp only at hs
+  cases hf : findEv c id false with
+  | none => rw [hf] at hs; cases hs
+  | some m =>
+    rw [hf] at hs
+    obtain ⟨hm, hid, hu⟩ := findEv_some hf
+    subst hid
+    obtain ⟨t, start, hk, hseq⟩ := seqKind_inv (h.dur.kinds _ (mem_evK hm))
+    replace hk : m.kind = .visit t [] start none := hk
+    obtain ⟨l1, l2, he, h1, h2⟩ := split_of_mem hm (by rw [← evK_ids]; exact h.dur.ids)
+    have hd1 := h.dur.markEv m.id
+    have hlt : m.id < c.nextId := h.dur.idlt _ (mem_evK hm)
+    obtain ⟨m', hid', hk', hu', hmk⟩ := markEv_split he h1 h2 hu
+    rw [hmk] at hs hd1
+    obtain ⟨n, hn⟩ := fuelOf_succ { c with evq := l1 ++ m' :: l2 }
+    have hpre : ∀ o : Option Nat, o = none → (if start = true then [if o.isSome = true then Act.cnote false else Act.note false] else []) = preOf start := by
+      intro o ho; subst ho; rfl
+    obtain ⟨tnd, pnd, ond, t_sub, p_sub, o_sub, he_sub, hr_sub, u_ev, u_rp, t_kind, p_kind, tp⟩ := h.vol
+    have hnj := h.nojoin
+    have hndt := @nodup_insertNat m.id _ tnd
+    have hndp := @nodup_insertNat m.id _ pnd
+    have hn1 : m.id ∉ uEv l1 := mem_uEv_ne h1
+    have hn2 : m.id ∉ uEv l2 := mem_uEv_ne h2
+    have hnt : m.id ∉ c.timers := by
+      intro ht
+      have := t_sub _ ht
+      rw [he] at this
+      simp only [uEv_append, uEv_cons, hu, Bool.false_eq_true, if_false, List.mem_append] at this
+      rcases this with h | h
+      · exact hn1 h
+      · exact hn2 h
+    have hlen := length_insertNat_new hnt
+    rw [he] at t_sub p_sub he_sub u_ev t_kind p_kind
+    have hc1 : ({ c with evq := l1 ++ m' :: l2 } : Cfg).evq = l1 ++ m' :: l2 := rfl
+    simp only at hs
+    rw [inDead_top ({ c with evq := l1 ++ m' :: l2 } : Cfg) _ m hk h.dur.nofail,
+      dropEv_top _ ({ c with evq := l1 ++ m' :: l2 } : Cfg) _ m hk] at hs
+    by_cases hdrop : (decide (c.notes > 0) && !m.redelivered) = true
+    · -- delivered for the first time after the terminal notification: dropped
+      have hnotes : 1 ≤ c.notes := by
+        simp only [Bool.and_eq_true, decide_eq_true_eq] at hdrop; exact hdrop.1
+      simp only [show (({ c with evq := l1 ++ m' :: l2 } : Cfg).notes) = c.notes from rfl, hdrop, if_true, Option.some.injEq] at hs
+      subst hs
+      have h1' := h1
+      have h2' := h2
+      rw [← hid'] at h1' h2' hlt ⊢
+      refine good_handler cut hd1 ⟨Or.inl hnotes, trivial⟩ (by simp [Cfg.vol, hnj]) ?_
+      have hq := ack_split h1' h2' (l3 := []) (by simp) hu'
+      simp only [List.append_nil] at hq
+      have hfold : List.foldl Cfg.act ({ c with evq := l1 ++ m' :: l2 } : Cfg) [Act.ackEv m'.id] =
+          { c with evq := l1 ++ l2 } := by
+        simp only [List.foldl, Cfg.act]
+        rw [show (fun m => !(m.id == m'.id && m.unacked)) = ackP m'.id from rfl, hq]
+      rw [hfold]
+      refine ⟨by voli_grind, fun _ => by mu_tac [he, hu, hk], ?_⟩
+      intro N hcons
+      exfalso
+      have := hcons.psi
+      rw [he] at this
+      simp at this
+      omega
+    rw [if_neg hdrop] at hs
+    simp only [hk, hpre none rfl, hn] at hs
+    have hul1 : ∀ x ∈ uEv l1, x < c.nextId := by
+      intro x hx; obtain ⟨e, he', _, rfl⟩ := mem_uEv.mp hx
+      exact h.dur.idlt _ (mem_evK (he ▸ List.mem_append_left _ he'))
+    have hul2 : ∀ x ∈ uEv l2, x < c.nextId := by
+      intro x hx; obtain ⟨e, he', _, rfl⟩ := mem_uEv.mp hx
+      exact h.dur.idlt _ (mem_evK (he ▸ List.mem_append_right _ (List.mem_cons_of_mem _ he')))
+    have h1' := h1
+    have h2' := h2
+    rw [← hid'] at h1' h2' hlt hs hlen
+    have hkm' : m'.kind = .visit t [] start none := hk' ▸ hk
+    have hj0 : ({ c with evq := l1 ++ m' :: l2 } : Cfg).vol.joins = [] := hnj
+    have hnx : c.sent.contains c.nextId = false := by
+      have : c.nextId ∉ c.sent := fun hh => Nat.lt_irrefl _ (h.dur.sentlt _ hh)
+      simpa using this
+    have hcs : ∀ r ∈ c.rpq, r.corr ∈ c.sent := fun r hr => h.dur.corrsent _ (List.mem_map.mpr ⟨r, hr, rfl⟩)
+    have hnontask : isTaskKind m.kind = false → m.id ∉ c.sent := by
+      intro hnt hh
+      have := (h.dur.reply _ (mem_evK hm) hh).1
+      rw [hnt] at this; cases this
+    cases t with
+    | wait rest =>
+      simp only [Option.some.injEq] at hs
+      subst hs
+      refine good_handler cut hd1 (ok_pre_only _ start) (by simp [Cfg.vol, hnj]) ?_
+      rw [fold_pre]
+      refine ⟨by voli_grind, fun _ => by mu_tac [he, hu, hu', hk, hkm', hlen], ?_⟩
+      have hns := hnontask (by rw [hk]; rfl)
+      have hnsb : c.sent.contains m.id = false := by simpa using hns
+      cons_tac [he, hk, hkm', hid', hnsb, hnx]
+    | done =>
+      simp only [advance_done_top _ _ _ _ _ _ hj0, Option.some.injEq] at hs
+      subst hs
+      refine good_handler cut hd1 (ok_end start none hc1 h1' h2' hu' (by simp)) (by simp [Cfg.vol, hnj]) ?_
+      have := fold_end { c with evq := l1 ++ m' :: l2 } start m'.id none
+      simp only [ackRof, List.append_nil] at this ⊢
+      rw [this]
+      have hq := ack_split h1' h2' (l3 := []) (by simp) hu'
+      simp only [List.append_nil] at hq
+      simp only [hq, ackRq]
+      refine ⟨by voli_grind, fun _ => by mu_tac [he, hu, hk], ?_⟩
+      have hns := hnontask (by rw [hk]; rfl)
+      have hnsb : c.sent.contains m.id = false := by simpa using hns
+      cons_tac [he, hk, hkm', hid', hnsb, hnx]
+    | step rest =>
+      have hrs : rest.seq = true := hseq
+      rcases seq_cases hrs with rfl | ⟨hv, hkk⟩
+      · simp only [advance_done_top _ _ _ _ _ _ hj0, Option.some.injEq] at hs
+        subst hs
+        refine good_handler cut hd1 (ok_end start none hc1 h1' h2' hu' (by simp)) (by simp [Cfg.vol, hnj]) ?_
+        have := fold_end { c with evq := l1 ++ m' :: l2 } start m'.id none
+        simp only [ackRof, List.append_nil] at this ⊢
+        rw [this]
+        have hq := ack_split h1' h2' (l3 := []) (by simp) hu'
+        simp only [List.append_nil] at hq
+        simp only [hq, ackRq]
+        refine ⟨by voli_grind, fun _ => by mu_tac [he, hu, hk], ?_⟩
+        have hns := hnontask (by rw [hk]; rfl)
+        have hnsb : c.sent.contains m.id = false := by simpa using hns
+        cons_tac [he, hk, hkm', hid', hnsb, hnx]
+      · simp only [advance_next _ _ _ _ _ _ _ _ _ hv, Option.some.injEq] at hs
+        subst hs
+        refine good_handler cut hd1 (ok_next start none hc1 h1' h2' hu' hlt hkk (by simp)) (by simp [Cfg.vol, hnj]) ?_
+        have := fold_next { c with evq := l1 ++ m' :: l2 } start (.visit rest [] false none) m'.id none
+        simp only [ackRof, List.append_nil] at this ⊢
+        rw [this]
+        have hq := ack_split h1' h2' (l3 := [({ id := c.nextId, kind := .visit rest [] false none } : QEv)])
+          (by intro e he; simp at he; subst he; simp; omega) hu'
+        simp only [hq, ackRq]
+        refine ⟨by voli_grind, fun _ => by mu_tac [he, hu, hk], ?_⟩
+        have hns := hnontask (by rw [hk]; rfl)
+        have hnsb : c.sent.contains m.id = false := by simpa using hns
+        cons_tac [he, hk, hkm', hid', hnsb, hnx]
+    | task rc rest =>
+      cases rc with
+      | zero =>
+        simp only [Quirks.none, bne_self_eq_false, Bool.or_false, Bool.false_eq_true, if_false, requestOf,
+          Option.some.injEq, List.contains_iff_mem] at hs
+        by_cases hsn : m'.id ∈ c.sent
+        · rw [if_pos hsn, List.nil_append] at hs
+          subst hs
+          refine good_handler cut hd1 (ok_pre_only _ start) (by simp [Cfg.vol, hnj]) ?_
+          rw [fold_pre]
+          refine ⟨by voli_grind, fun _ => by mu_tac [he, hu, hu', hk, hkm'], ?_⟩
+          have hsnb : c.sent.contains m.id = true := by rw [← hid']; simpa using hsn
+          cons_tac [he, hk, hkm', hid', hsnb, hnx]
+        · rw [if_neg hsn] at hs
+          subst hs
+          refine good_handler cut hd1 (ok_send (m := m') start (by simp) (by rw [hkm']; rfl) hsn) (by simp [Cfg.vol, hnj]) ?_
+          rw [fold_send_pre]
+          refine ⟨by voli_grind, fun _ => by mu_tac [he, hu, hu', hk, hkm'], ?_⟩
+          have hsnb : c.sent.contains m.id = false := by rw [← hid']; simpa using hsn
+          have hf1 : l1.filter (fun e => (c.sent ++ [m.id]).contains e.id) = l1.filter (fun e => c.sent.contains e.id) :=
+            List.filter_congr (fun e he' => by have := h1 e he'; simp [this])
+          have hf2 : l2.filter (fun e => (c.sent ++ [m.id]).contains e.id) = l2.filter (fun e => c.sent.contains e.id) :=
+            List.filter_congr (fun e he' => by have := h2 e he'; simp [this])
+          have hself : (c.sent ++ [m.id]).contains m.id = true := by simp
+          cons_tac [he, hk, hkm', hid', hsnb, hnx, hf1, hf2, hself]
+      | succ rc =>
+        simp only [Quirks.none, Bool.false_or, Nat.succ_ne_zero, bne_iff_ne, ne_eq, not_false_eq_true, decide_true,
+          if_true, Option.some.injEq] at hs
+        subst hs
+        refine good_handler cut hd1 (ok_pre_only _ start) (by simp [Cfg.vol, hnj]) ?_
+        rw [fold_pre]
+        refine ⟨by voli_grind, fun _ => by mu_tac [he, hu, hu', hk, hkm', hlen], ?_⟩
+        by_cases hsn : m.id ∈ c.sent
+        · have hsnb : c.sent.contains m.id = true := by simpa using hsn
+          cons_tac [he, hk, hkm', hid', hsnb, hnx]
+        · have hsnb : c.sent.contains m.id = false := by simpa using hsn
+          cons_tac [he, hk, hkm', hid', hsnb, hnx]
+    | par _ _ _ => simp [Sk.seq] at hseq
+    | child _ _ _ => simp [Sk.seq] at hseq
+    | fail _ _ => simp [Sk.seq] at hseq
+    | «opaque» => simp [Sk.seq] at hseq
+
+theorem withVol_vol (c : Cfg) : c.withVol c.vol = c := rfl
+
+theorem good_noop (c : Cfg) (cut : Option Nat) (h : SInv c) : Good c (c.handler [] c.vol cut) cut False :=
+  good_handler cut h.dur trivial (by simp [Cfg.vol, h.nojoin])
+    ⟨by simpa [withVol_vol] using h.vol, fun hf => hf.elim, fun N hc => by simpa [withVol_vol] using hc⟩
+
+/-- the unacknowledged event with a given id, and the queue around it -/
+theorem unacked_split {c : Cfg} (h : SInv c) {id : Nat} (hid : id ∈ uEv c.evq) :
+    ∃ m l1 l2, c.evq = l1 ++ m :: l2 ∧ m.id = id ∧ m.unacked = true ∧ (∀ e ∈ l1, e.id ≠ m.id) ∧ (∀ e ∈ l2, e.id ≠ m.id) ∧
+      findEv c id true = some m := by
+  obtain ⟨m, hm, hu, rfl⟩ := mem_uEv.mp hid
+  obtain ⟨l1, l2, he, h1, h2⟩ := split_of_mem hm (by rw [← evK_ids]; exact h.dur.ids)
+  exact ⟨m, l1, l2, he, rfl, hu, h1, h2, by have := findEv_split he h1; rwa [hu] at this⟩
+
+theorem good_tm (c c' : Cfg) (id : Nat) (cut : Option Nat) (h : SInv c)
+    (hs : step Quirks.none c (.tm id) cut = some c') : Good c c' cut (id ∈ c.timers) := by
+  unfold step at hs
+  rw [if_neg (by simp [h.dur.nodiv])] at hs
+  simp only at hs
+  by_cases hc : id ∈ c.timers
+  · have hc' : (!c.timers.contains id) = false := by simp [hc]
+    rw [hc'] at hs
+    simp only [Bool.false_eq_true, if_false] at hs
+    obtain ⟨m, l1, l2, he, hid, hu, h1, h2, hf⟩ := unacked_split h (h.vol.t_sub id hc)
+    subst hid
+    rw [hf] at hs
+    have hm : m ∈ c.evq := by rw [he]; simp
+    obtain ⟨t, start, hk, hseq⟩ := seqKind_inv (h.dur.kinds _ (mem_evK hm))
+    replace hk : m.kind = .visit t [] start none := hk
+    have hlt : m.id < c.nextId := h.dur.idlt _ (mem_evK hm)
+    obtain ⟨n, hn⟩ := fuelOf_succ c
+    obtain ⟨tnd, pnd, ond, t_sub, p_sub, o_sub, he_sub, hr_sub, u_ev, u_rp, t_kind, p_kind, tp⟩ := h.vol
+    have hnj := h.nojoin
+    have hte : ∀ a, a ∈ c.timers.erase m.id ↔ a ≠ m.id ∧ a ∈ c.timers := fun a => List.Nodup.mem_erase_iff tnd
+    have hnde := tnd.erase m.id
+    have hndp := @nodup_insertNat m.id _ pnd
+    have hlen := length_erase_mem hc
+    have hul1 : ∀ x ∈ uEv l1, x < c.nextId := by
+      intro x hx; obtain ⟨e, he', _, rfl⟩ := mem_uEv.mp hx
+      exact h.dur.idlt _ (mem_evK (he ▸ List.mem_append_left _ he'))
+    have hul2 : ∀ x ∈ uEv l2, x < c.nextId := by
+      intro x hx; obtain ⟨e, he', _, rfl⟩ := mem_uEv.mp hx
+      exact h.dur.idlt _ (mem_evK (he ▸ List.mem_append_right _ (List.mem_cons_of_mem _ he')))
+    have hE : heldE c.joins = [] := by rw [hnj]; rfl
+    have hR : heldR c.joins = [] := by rw [hnj]; rfl
+    have hn1 : m.id ∉ uEv l1 := mem_uEv_ne h1
+    have hn2 : m.id ∉ uEv l2 := mem_uEv_ne h2
+    rw [he] at t_sub p_sub he_sub u_ev t_kind p_kind
+    simp only [hk, hn] at hs
+    have hnx : c.sent.contains c.nextId = false := by
+      have : c.nextId ∉ c.sent := fun hh => Nat.lt_irrefl _ (h.dur.sentlt _ hh)
+      simpa using this
+    have hcs : ∀ r ∈ c.rpq, r.corr ∈ c.sent := fun r hr => h.dur.corrsent _ (List.mem_map.mpr ⟨r, hr, rfl⟩)
+    have hnontask : isTaskKind m.kind = false → m.id ∉ c.sent := by
+      intro hnt hh
+      have := (h.dur.reply _ (mem_evK hm) hh).1
+      rw [hnt] at this; cases this
+    have hj0 : ({ timers := c.timers.erase m.id, pending := c.vol.pending, orphans := c.vol.orphans, joins := c.vol.joins } : Vol).joins = [] := hnj
+    cases t with
+    | wait rest =>
+      simp only [waitVisit, Bool.not_true, Bool.false_and, Bool.false_eq_true, if_false] at hs
+      have hrs : rest.seq = true := hseq
+      rcases seq_cases hrs with rfl | ⟨hv, hkk⟩
+      · simp only [advance_done_top _ _ _ _ _ _ hj0, Option.some.injEq] at hs
+        subst hs
+        refine good_handler cut h.dur (ok_end false none he h1 h2 hu (by simp)) (by simp [Cfg.vol, hnj]) ?_
+        have := fold_end c false m.id none
+        simp only [ackRof, List.append_nil, preOf, Bool.false_eq_true, if_false, List.nil_append] at this ⊢
+        rw [this]
+        have hq := ack_split h1 h2 (l3 := []) (by simp) hu
+        simp only [List.append_nil] at hq
+        simp only [he, hq, ackRq]
+        refine ⟨by voli_grind, fun _ => by mu_tac [he, hu, hk], ?_⟩
+        have hns := hnontask (by rw [hk]; rfl)
+        have hnsb : c.sent.contains m.id = false := by simpa using hns
+        cons_tac [he, hk, hnsb, hnx]
+      · simp only [advance_next _ _ _ _ _ _ _ _ _ hv, Option.some.injEq] at hs
+        subst hs
+        refine good_handler cut h.dur (ok_next false none he h1 h2 hu hlt hkk (by simp)) (by simp [Cfg.vol, hnj]) ?_
+        have := fold_next c false (.visit rest [] false none) m.id none
+        simp only [ackRof, List.append_nil, preOf, Bool.false_eq_true, if_false, List.nil_append] at this ⊢
+        rw [this]
+        have hq := ack_split h1 h2 (l3 := [({ id := c.nextId, kind := .visit rest [] false none } : QEv)])
+          (by intro e he; simp at he; subst he; simp; omega) hu
+        simp only [he, hq, ackRq]
+        refine ⟨by voli_grind, fun _ => by mu_tac [he, hu, hk], ?_⟩
+        have hns := hnontask (by rw [hk]; rfl)
+        have hnsb : c.sent.contains m.id = false := by simpa using hns
+        cons_tac [he, hk, hnsb, hnx]
+    | task rc rest =>
+      rw [inDead_top c _ m hk h.dur.nofail, dropEv_top _ c _ m hk] at hs
+      simp only [waitVisit, Bool.not_false, Bool.true_and] at hs
+      by_cases hdrop : (decide (c.notes > 0) && !m.redelivered) = true
+      · -- the execution has ended since the event was accepted (it was not redelivered): dropped
+        have hnotes : 1 ≤ c.notes := by
+          simp only [Bool.and_eq_true, decide_eq_true_eq] at hdrop; exact hdrop.1
+        simp only [hdrop, if_true, Option.some.injEq] at hs
+        subst hs
+        refine good_handler cut h.dur ⟨Or.inl hnotes, trivial⟩ (by simp [Cfg.vol, hnj]) ?_
+        have hq := ack_split h1 h2 (l3 := []) (by simp) hu
+        simp only [List.append_nil] at hq
+        have hfold : List.foldl Cfg.act c [Act.ackEv m.id] = { c with evq := l1 ++ l2 } := by
+          simp only [List.foldl, Cfg.act]
+          rw [show (fun x => !(x.id == m.id && x.unacked)) = ackP m.id from rfl, he, hq]
+        rw [hfold]
+        refine ⟨by voli_grind, fun _ => by mu_tac [he, hu, hk], ?_⟩
+        intro N hcons
+        exfalso
+        have := hcons.psi
+        rw [he] at this
+        simp at this
+        omega
+      rw [if_neg hdrop] at hs
+      simp only [Quirks.none, Bool.false_eq_true, if_false, requestOf, Option.some.injEq, List.contains_iff_mem] at hs
+      by_cases hsn : m.id ∈ c.sent
+      · simp only [hsn, if_true] at hs
+        subst hs
+        refine good_handler cut h.dur trivial (by simp [Cfg.vol, hnj]) ?_
+        refine ⟨by voli_grind_with [he], fun _ => by mu_tac [he, hu, hk], ?_⟩
+        have hsnb : c.sent.contains m.id = true := by simpa using hsn
+        cons_tac [he, hk, hsnb, hnx]
+      · simp only [hsn, if_false] at hs
+        subst hs
+        refine good_handler cut h.dur (ok_send (m := m) false hm (by rw [hk]; rfl) hsn) (by simp [Cfg.vol, hnj]) ?_
+        have := fold_send_pre c false m.id
+        simp only [preOf, Bool.false_eq_true, if_false, List.append_nil] at this ⊢
+        rw [this]
+        simp only [he]
+        refine ⟨by voli_grind, fun _ => by mu_tac [he, hu, hk], ?_⟩
+        have hsnb : c.sent.contains m.id = false := by simpa using hsn
+        have hf1 : l1.filter (fun e => (c.sent ++ [m.id]).contains e.id) = l1.filter (fun e => c.sent.contains e.id) :=
+          List.filter_congr (fun e he' => by have := h1 e he'; simp [this])
+        have hf2 : l2.filter (fun e => (c.sent ++ [m.id]).contains e.id) = l2.filter (fun e => c.sent.contains e.id) :=
+          List.filter_congr (fun e he' => by have := h2 e he'; simp [this])
+        have hself : (c.sent ++ [m.id]).contains m.id = true := by simp
+        cons_tac [he, hk, hsnb, hnx, hf1, hf2, hself]
+    | done =>
+      have := t_kind m (by simp) hc
+      rw [hk] at this; simp [timerKind] at this
+    | step _ =>
+      have := t_kind m (by simp) hc
+      rw [hk] at this; simp [timerKind] at this
+    | par _ _ _ => simp [Sk.seq] at hseq
+    | child _ _ _ => simp [Sk.seq] at hseq
+    | fail _ _ => simp [Sk.seq] at hseq
+    | «opaque» => simp [Sk.seq] at hseq
+  · have hc' : (!c.timers.contains id) = true := by simp [hc]
+    rw [hc'] at hs
+    simp only [if_true] at hs
+    have weaken : ∀ {x : Cfg}, Good c x cut False → Good c x cut (id ∈ c.timers) :=
+      fun g => ⟨g.inv, fun _ hd => absurd hd hc, g.cons⟩
+    cases hf : findEv c id true with
+    | none => rw [hf] at hs; cases hs
+    | some m =>
+      rw [hf] at hs
+      simp only [Quirks.none, Bool.false_eq_true, if_false] at hs
+      split at hs
+      · cases hs; exact weaken (good_noop c cut h)
+      · cases hs; exact weaken (good_noop c cut h)
+      · cases hs
+
+/-- the reply to `corr` completes the Task visit of event `m`: the common part of `rp` (the reply was just delivered) and
+`tick` (it was retained) -/
+theorem good_reply (c c' : Cfg) (cut : Option Nat) (h : SInv c) {m : QEv} {l1 l2 : List QEv} {r : QRp} {k1 k2 : List QRp}
+    (orph : List Nat)
+    (he : c.evq = l1 ++ m :: l2) (hu : m.unacked = true) (h1 : ∀ e ∈ l1, e.id ≠ m.id) (h2 : ∀ e ∈ l2, e.id ≠ m.id)
+    (hp : m.id ∈ c.pending)
+    (hr : c.rpq = k1 ++ r :: k2) (hrc : r.corr = m.id) (g1 : ∀ e ∈ k1, e.corr ≠ r.corr) (g2 : ∀ e ∈ k2, e.corr ≠ r.corr)
+    (r' : QRp) (hr'c : r'.corr = r.corr) (hr'u : r'.unacked = true)
+    (horph : ∀ a, a ∈ orph ↔ a ≠ m.id ∧ a ∈ c.orphans) (horphnd : orph.Nodup)
+    (hru : r.unacked = true → m.id ∈ c.orphans)
+    {acts : List Act} {v' : Vol} (x : Nat) (hx : x = m.id)
+    (hon : onReply Quirks.none { c with rpq := k1 ++ r' :: k2 } x
+              { timers := c.timers, pending := c.pending, orphans := orph, joins := c.joins } = some (acts, v'))
+    (hrdy : (k1 ++ r :: k2).filter (fun x => !x.unacked) = (k1 ++ k2).filter (fun x => !x.unacked) ∨
+      ((k1 ++ r :: k2).filter (fun x => !x.unacked)).length = ((k1 ++ k2).filter (fun x => !x.unacked)).length + 1)
+    (hs : c' = ({ c with rpq := k1 ++ r' :: k2 } : Cfg).handler acts v' cut) : Good c c' cut True := by
+  subst hx
+  have hm : m ∈ c.evq := by rw [he]; simp
+  obtain ⟨t, start, hk, hseq⟩ := seqKind_inv (h.dur.kinds _ (mem_evK hm))
+  replace hk : m.kind = .visit t [] start none := hk
+  have hlt : m.id < c.nextId := h.dur.idlt _ (mem_evK hm)
+  have hd1 : Dur SeqK { c with rpq := k1 ++ r' :: k2 } := by
+    refine h.dur.congr rfl ?_ rfl rfl rfl rfl
+    simp [rpC, hr, hr'c]
+  have hc1e : ({ c with rpq := k1 ++ r' :: k2 } : Cfg).evq = l1 ++ m :: l2 := he
+  have hf : findEv { c with rpq := k1 ++ r' :: k2 } m.id true = some m := by
+    have := findEv_split (c := { c with rpq := k1 ++ r' :: k2 }) hc1e h1; rwa [hu] at this
+  obtain ⟨n, hn⟩ := fuelOf_succ { c with rpq := k1 ++ r' :: k2 }
+  obtain ⟨tnd, pnd, ond, t_sub, p_sub, o_sub, he_sub, hr_sub, u_ev, u_rp, t_kind, p_kind, tp⟩ := h.vol
+  have hnj := h.nojoin
+  have hpe : ∀ a, a ∈ c.pending.erase m.id ↔ a ≠ m.id ∧ a ∈ c.pending := fun a => List.Nodup.mem_erase_iff pnd
+  have hndp := pnd.erase m.id
+  have hul1 : ∀ x ∈ uEv l1, x < c.nextId := by
+    intro x hx; obtain ⟨e, he', _, rfl⟩ := mem_uEv.mp hx
+    exact h.dur.idlt _ (mem_evK (he ▸ List.mem_append_left _ he'))
+  have hul2 : ∀ x ∈ uEv l2, x < c.nextId := by
+    intro x hx; obtain ⟨e, he', _, rfl⟩ := mem_uEv.mp hx
+    exact h.dur.idlt _ (mem_evK (he ▸ List.mem_append_right _ (List.mem_cons_of_mem _ he')))
+  have hE : heldE c.joins = [] := by rw [hnj]; rfl
+  have hR : heldR c.joins = [] := by rw [hnj]; rfl
+  have hn1 := mem_uEv_ne h1
+  have hn2 := mem_uEv_ne h2
+  have gn1 := mem_uRp_ne g1
+  have gn2 := mem_uRp_ne g2
+  have hpk := h.vol.p_kind m hm hp
+  have hrq : removeFirst (fun x => x.corr == m.id && x.unacked) (k1 ++ r' :: k2) = k1 ++ k2 := by
+    apply removeFirst_split
+    · intro e he'
+      have := g1 e he'
+      rw [hrc] at this
+      simp [this]
+    · simp [hr'c, hrc, hr'u]
+  rw [he] at t_sub p_sub he_sub u_ev t_kind p_kind
+  rw [hr] at o_sub hr_sub u_rp
+  simp only [onReply, hf, hk] at hon
+  have hnx : c.sent.contains c.nextId = false := by
+    have : c.nextId ∉ c.sent := fun hh => Nat.lt_irrefl _ (h.dur.sentlt _ hh)
+    simpa using this
+  have hcs : ∀ r ∈ c.rpq, r.corr ∈ c.sent := fun r hr => h.dur.corrsent _ (List.mem_map.mpr ⟨r, hr, rfl⟩)
+  have hsnb : c.sent.contains m.id = true := by simpa using (h.vol.p_sub _ hp).2
+  cases t with
+  | task rc rest =>
+    have hrs : rest.seq = true := hseq
+    simp only [hn] at hon
+    have hj0 : ({ timers := c.timers, pending := c.pending.erase m.id, orphans := orph, joins := c.joins } : Vol).joins = [] := hnj
+    rcases seq_cases hrs with rfl | ⟨hv, hkk⟩
+    · simp only [advance_done_top _ _ _ _ _ _ hj0, Option.some.injEq, Prod.mk.injEq] at hon
+      obtain ⟨rfl, rfl⟩ := hon
+      subst hs
+      refine good_handler cut hd1 (ok_end false (some m.id) hc1e h1 h2 hu (by simp)) (by simp [hnj]) ?_
+      have := fold_end { c with rpq := k1 ++ r' :: k2 } false m.id (some m.id)
+      simp only [preOf, Bool.false_eq_true, if_false, List.nil_append] at this ⊢
+      rw [this]
+      have hq := ack_split h1 h2 (l3 := []) (by simp) hu
+      simp only [List.append_nil] at hq
+      simp only [he, hq, ackRq, hrq]
+      have hrl : ((k1 ++ k2).filter (fun x => !x.unacked)).length ≤ ((k1 ++ r :: k2).filter (fun x => !x.unacked)).length := by
+        rcases hrdy with h | h
+        · rw [h]; exact Nat.le_refl _
+        · omega
+      refine ⟨by voli_grind, fun _ => ?_, ?_⟩
+      · simp only [mu, evW, Cfg.withVol, he, hr, List.map_append, List.map_cons, List.map_nil, List.sum_append, List.sum_cons,
+          List.sum_nil, hu, hk, todoOf, visits, if_true, Bool.false_eq_true, if_false]
+        omega
+      · cons_tac [he, hr, hk, hsnb, hnx]
+    · simp only [advance_next _ _ _ _ _ _ _ _ _ hv, Option.some.injEq, Prod.mk.injEq] at hon
+      obtain ⟨rfl, rfl⟩ := hon
+      subst hs
+      refine good_handler cut hd1 (ok_next false (some m.id) hc1e h1 h2 hu hlt hkk (by simp)) (by simp [hnj]) ?_
+      have := fold_next { c with rpq := k1 ++ r' :: k2 } false (.visit rest [] false none) m.id (some m.id)
+      simp only [preOf, Bool.false_eq_true, if_false, List.nil_append] at this ⊢
+      rw [this]
+      have hq := ack_split h1 h2 (l3 := [({ id := c.nextId, kind := .visit rest [] false none } : QEv)])
+        (by intro e he; simp at he; subst he; simp; omega) hu
+      simp only [he, hq, ackRq, hrq]
+      have hrl : ((k1 ++ k2).filter (fun x => !x.unacked)).length ≤ ((k1 ++ r :: k2).filter (fun x => !x.unacked)).length := by
+        rcases hrdy with h | h
+        · rw [h]; exact Nat.le_refl _
+        · omega
+      refine ⟨by voli_grind, fun _ => ?_, ?_⟩
+      · simp only [mu, evW, Cfg.withVol, he, hr, List.map_append, List.map_cons, List.map_nil, List.sum_append, List.sum_cons,
+          List.sum_nil, hu, hk, todoOf, visits, if_true, Bool.false_eq_true, if_false]
+        omega
+      · cons_tac [he, hr, hk, hsnb, hnx]
+  | done => rw [hk] at hpk; simp [isTaskKind] at hpk
+  | step _ => rw [hk] at hpk; simp [isTaskKind] at hpk
+  | wait _ => rw [hk] at hpk; simp [isTaskKind] at hpk
+  | par _ _ _ => simp [Sk.seq] at hseq
+  | child _ _ _ => simp [Sk.seq] at hseq
+  | fail _ _ => simp [Sk.seq] at hseq
+  | «opaque» => simp [Sk.seq] at hseq
+
+
+theorem good_rp (c c' : Cfg) (corr : Nat) (cut : Option Nat) (h : SInv c)
+    (hs : step Quirks.none c (.rp corr) cut = some c') : Good c c' cut True := by
+  unfold step at hs
+  rw [if_neg (by simp [h.dur.nodiv])] at hs
+  simp only at hs
+  by_cases hany : (c.rpq.any (fun r => r.corr == corr && !r.unacked)) = true
+  · rw [hany] at hs
+    simp only [Bool.not_true, Bool.false_eq_true, if_false] at hs
+    obtain ⟨r, hr, hrp⟩ := List.any_eq_true.mp hany
+    simp only [Bool.and_eq_true, beq_iff_eq, Bool.not_eq_true'] at hrp
+    obtain ⟨hrc, hru⟩ := hrp
+    subst hrc
+    obtain ⟨k1, k2, hk, g1, g2⟩ := splitR_of_mem hr h.dur.corrnd
+    have hmk : markRpL c.rpq r.corr = k1 ++ { r with unacked := true } :: k2 := by
+      rw [hk]; exact markRpL_split g1 hru
+    rw [hmk] at hs
+    have gn1 := mem_uRp_ne g1
+    have gn2 := mem_uRp_ne g2
+    have hno : r.corr ∉ c.orphans := by
+      intro ho
+      have := h.vol.o_sub _ ho
+      rw [hk] at this
+      simp only [uRp_append, uRp_cons, hru, Bool.false_eq_true, if_false, List.mem_append] at this
+      rcases this with h | h
+      · exact gn1 h
+      · exact gn2 h
+    by_cases hp : r.corr ∈ c.pending
+    · have hp' : (({ c with rpq := k1 ++ { r with unacked := true } :: k2 } : Cfg).vol.pending.contains r.corr) = true := by
+        simp [Cfg.vol, hp]
+      rw [if_pos hp'] at hs
+      obtain ⟨m, l1, l2, he, hid, hu, h1, h2, _⟩ := unacked_split h (h.vol.p_sub _ hp).1
+      simp only [Cfg.vol] at hs
+      split at hs
+      · rename_i acts v' hon
+        exact good_reply c c' cut h c.orphans he hu h1 h2 (hid ▸ hp) hk hid.symm g1 g2 { r with unacked := true } rfl rfl
+          (fun a => ⟨fun ha => ⟨fun e => hno (hid ▸ e ▸ ha), ha⟩, fun ha => ha.2⟩) h.vol.ond (by simp [hru]) r.corr hid.symm hon
+          (Or.inr (by simp [List.filter_append, hru]; omega)) (Option.some.inj hs).symm
+      · cases hs
+    · have hp' : ¬ (({ c with rpq := k1 ++ { r with unacked := true } :: k2 } : Cfg).vol.pending.contains r.corr) = true := by
+        simp [Cfg.vol, hp]
+      rw [if_neg hp'] at hs
+      simp only [Option.some.injEq] at hs
+      subst hs
+      have hd1 : Dur SeqK { c with rpq := k1 ++ { r with unacked := true } :: k2 } := by
+        refine h.dur.congr rfl ?_ rfl rfl rfl rfl
+        simp [rpC, hk]
+      refine good_handler cut hd1 trivial (by simp [Cfg.vol, h.nojoin]) ?_
+      obtain ⟨tnd, pnd, ond, t_sub, p_sub, o_sub, he_sub, hr_sub, u_ev, u_rp, t_kind, p_kind, tp⟩ := h.vol
+      have hndo := @nodup_insertNat r.corr _ ond
+      have hnj := h.nojoin
+      have hE : heldE c.joins = [] := by rw [hnj]; rfl
+      have hR : heldR c.joins = [] := by rw [hnj]; rfl
+      rw [hk] at o_sub hr_sub u_rp
+      refine ⟨by voli_grind, fun _ => by mu_tac [hk, hru], ?_⟩
+      intro N hcons
+      obtain ⟨hpsi, hphi, hfresh⟩ := hcons
+      refine ⟨hpsi, hphi, ?_⟩
+      intro x hx
+      have hx' : x ∈ k1 ++ { r with unacked := true } :: k2 := hx
+      show ∃ e ∈ c.evq, e.id = x.corr
+      rcases List.mem_append.mp hx' with hx1 | hx1
+      · exact hfresh x (by rw [hk]; exact List.mem_append_left _ hx1)
+      · rcases List.mem_cons.mp hx1 with rfl | hx2
+        · exact hfresh r hr
+        · exact hfresh x (by rw [hk]; exact List.mem_append_right _ (List.mem_cons_of_mem _ hx2))
+  · have : (!c.rpq.any (fun r => r.corr == corr && !r.unacked)) = true := by simp [hany]
+    rw [if_pos this] at hs
+    cases hs
+
+theorem good_tick (c c' : Cfg) (cut : Option Nat) (h : SInv c)
+    (hs : step Quirks.none c .tick cut = some c') : Good c c' cut (∃ o ∈ c.orphans, o ∈ c.pending) := by
+  unfold step at hs
+  rw [if_neg (by simp [h.dur.nodiv])] at hs
+  simp only at hs
+  cases hf : c.orphans.find? (fun o => c.pending.contains o) with
+  | none =>
+    rw [hf] at hs
+    simp only [Option.some.injEq] at hs
+    subst hs
+    have hnone := List.find?_eq_none.mp hf
+    exact ⟨(good_noop c cut h).inv, fun _ ⟨o, ho, hp⟩ => absurd (by simpa using hp) (hnone o ho), (good_noop c cut h).cons⟩
+  | some corr =>
+    rw [hf] at hs
+    simp only at hs
+    have ho := List.mem_of_find?_eq_some hf
+    have hp : corr ∈ c.pending := by simpa using List.find?_some hf
+    obtain ⟨m, l1, l2, he, hid, hu, h1, h2, _⟩ := unacked_split h (h.vol.p_sub _ hp).1
+    obtain ⟨r, hr, hru, hrc⟩ := mem_uRp.mp (h.vol.o_sub _ ho)
+    obtain ⟨k1, k2, hk, g1, g2⟩ := splitR_of_mem hr h.dur.corrnd
+    subst hid
+    have hcc : c = { c with rpq := k1 ++ r :: k2 } := by rw [← hk]
+    simp only [Cfg.vol] at hs
+    split at hs
+    · rename_i acts v' hon
+      rw [hcc] at hon hs
+      have g := good_reply c c' cut h (c.orphans.erase m.id) he hu h1 h2 hp hk hrc g1 g2 r rfl hru
+        (fun a => List.Nodup.mem_erase_iff h.vol.ond) (h.vol.ond.erase _) (fun _ => ho) m.id rfl hon
+        (Or.inl (by simp [List.filter_append, hru])) (Option.some.inj hs).symm
+      exact ⟨g.inv, fun hc _ => g.less hc trivial, g.cons⟩
+    · cases hs
+
+theorem sinv_step (c c' : Cfg) (op : Op) (cut : Option Nat) (h : SInv c)
+    (hs : step Quirks.none c op cut = some c') : SInv c' := by
+  cases op with
+  | ev id => exact (good_ev c c' id cut h hs).inv
+  | tm id => exact (good_tm c c' id cut h hs).inv
+  | rp corr => exact (good_rp c c' corr cut h hs).inv
+  | tick => exact (good_tick c c' cut h hs).inv
+  | crash =>
+    unfold step at hs
+    rw [if_neg (by simp [h.dur.nodiv])] at hs
+    simp only [Option.some.injEq] at hs
+    subst hs
+    exact ⟨h.dur.crash, VolI.crash c, rfl⟩
+
+/-- every executable schedule — crashes between handler invocations and inside them, anywhere, any number — keeps the
+invariant -/
+theorem sinv_run (c c' : Cfg) (sched : Sched) (h : SInv c) (hr : run Quirks.none c sched = some c') : SInv c' := by
+  induction sched generalizing c with
+  | nil => simp [run] at hr; exact hr ▸ h
+  | cons x rest ih =>
+    obtain ⟨op, cut⟩ := x
+    simp only [run] at hr
+    split at hr
+    · rename_i c1 h1
+      exact ih c1 (sinv_step c c1 op cut h h1) hr
+    · cases hr
+
+
+/-! ### the canonical crash-free run ends the execution -/
+
+theorem task_of_seq {k : EvKind} (hs : seqKind k = true) (ht : isTaskKind k = true) :
+    ∃ rc rest start, k = .visit (.task rc rest) [] start none := by
+  obtain ⟨t, start, rfl, hseq⟩ := seqKind_inv hs
+  cases t <;> simp [isTaskKind, Sk.seq] at ht hseq
+  exact ⟨_, _, _, rfl⟩
+
+theorem onReply_enabled {c c1 : Cfg} (h : SInv c) {corr : Nat} (hp : corr ∈ c.pending) (v : Vol)
+    (hev : c1.evq = c.evq) : ∃ x, onReply Quirks.none c1 corr v = some x := by
+  obtain ⟨m, l1, l2, he, hid, hu, h1, h2, hf⟩ := unacked_split h (h.vol.p_sub _ hp).1
+  have hm : m ∈ c.evq := by rw [he]; simp
+  obtain ⟨rc, rest, start, hk⟩ := task_of_seq (h.dur.kinds _ (mem_evK hm)) (h.vol.p_kind m hm (hid ▸ hp))
+  replace hk : m.kind = .visit (.task rc rest) [] start none := hk
+  have hf1 : findEv c1 corr true = some m := by
+    unfold findEv at hf ⊢; rw [hev]; exact hf
+  simp only [onReply, hf1, hk]
+  exact ⟨_, rfl⟩
+
+theorem canon_enabled (c : Cfg) (h : SInv c) (op : Op) (hop : nextOp c = some op) :
+    (∃ c', step Quirks.none c op none = some c') ∧
+      (match op with
+       | .ev _ => True
+       | .tm id => id ∈ c.timers
+       | .rp _ => True
+       | .tick => ∃ o ∈ c.orphans, o ∈ c.pending
+       | .crash => False) := by
+  have hnd : c.diverged = false := h.dur.nodiv
+  unfold nextOp at hop
+  split at hop
+  · -- a timer is armed
+    rename_i t ts ht
+    cases hop
+    have hc : t ∈ c.timers := by rw [ht]; simp
+    refine ⟨?_, hc⟩
+    obtain ⟨m, l1, l2, he, hid, hu, h1, h2, hf⟩ := unacked_split h (h.vol.t_sub t hc)
+    have hm : m ∈ c.evq := by rw [he]; simp
+    obtain ⟨tt, start, hk, hseq⟩ := seqKind_inv (h.dur.kinds _ (mem_evK hm))
+    replace hk : m.kind = .visit tt [] start none := hk
+    have htk := h.vol.t_kind m hm (hid ▸ hc)
+    have hc' : (!c.timers.contains t) = false := by simp [hc]
+    unfold step
+    rw [if_neg (by simp [hnd])]
+    simp only [hc', Bool.false_eq_true, if_false, hf, hk]
+    cases tt <;> simp [hk, timerKind, Sk.seq] at htk hseq ⊢ <;> split <;> exact ⟨_, rfl⟩
+  · split at hop
+    · -- an event is ready
+      rename_i m hm
+      cases hop
+      refine ⟨?_, trivial⟩
+      have hmm := List.mem_of_find?_eq_some hm
+      have hmu : m.unacked = false := by simpa using List.find?_some hm
+      obtain ⟨l1, l2, he, h1, h2⟩ := split_of_mem hmm (by rw [← evK_ids]; exact h.dur.ids)
+      have hf : findEv c m.id false = some m := by
+        have := findEv_split he h1; rwa [hmu] at this
+      obtain ⟨tt, start, hk, hseq⟩ := seqKind_inv (h.dur.kinds _ (mem_evK hmm))
+      replace hk : m.kind = .visit tt [] start none := hk
+      unfold step
+      rw [if_neg (by simp [hnd])]
+      simp only [hf, hk]
+      split
+      · exact ⟨_, rfl⟩
+      · cases tt <;> simp [Sk.seq] at hseq ⊢
+        split <;> exact ⟨_, rfl⟩
+    · split at hop
+      · -- a reply is ready
+        rename_i hne r hr
+        cases hop
+        refine ⟨?_, trivial⟩
+        have hrm := List.mem_of_find?_eq_some hr
+        have hru : r.unacked = false := by simpa using List.find?_some hr
+        have hany : (c.rpq.any (fun x => x.corr == r.corr && !x.unacked)) = true :=
+          List.any_eq_true.mpr ⟨r, hrm, by simp [hru]⟩
+        unfold step
+        rw [if_neg (by simp [hnd])]
+        simp only [hany, Bool.not_true, Bool.false_eq_true, if_false]
+        by_cases hp : r.corr ∈ c.pending
+        · have hp' : (({ c with rpq := markRpL c.rpq r.corr } : Cfg).vol.pending.contains r.corr) = true := by
+            simp [Cfg.vol, hp]
+          rw [if_pos hp']
+          obtain ⟨x, hx⟩ := onReply_enabled (c1 := { c with rpq := markRpL c.rpq r.corr }) h hp
+            ({ c with rpq := markRpL c.rpq r.corr } : Cfg).vol rfl
+          rw [hx]
+          exact ⟨_, rfl⟩
+        · have hp' : ¬ (({ c with rpq := markRpL c.rpq r.corr } : Cfg).vol.pending.contains r.corr) = true := by
+            simp [Cfg.vol, hp]
+          rw [if_neg hp']
+          exact ⟨_, rfl⟩
+      · -- the orphan handler has something to match
+        split at hop
+        · rename_i hany
+          cases hop
+          obtain ⟨o, ho, hpo⟩ := List.any_eq_true.mp hany
+          have hpo' : o ∈ c.pending := by simpa using hpo
+          refine ⟨?_, o, ho, hpo'⟩
+          unfold step
+          rw [if_neg (by simp [hnd])]
+          simp only
+          cases hf : c.orphans.find? (fun o => c.pending.contains o) with
+          | none => exact absurd hpo (List.find?_eq_none.mp hf o ho)
+          | some corr =>
+            have hp : corr ∈ c.pending := by simpa using List.find?_some hf
+            obtain ⟨x, hx⟩ := onReply_enabled (c1 := c) h hp { c.vol with orphans := c.orphans.erase corr } rfl
+            simp only [hx]
+            exact ⟨_, rfl⟩
+        · cases hop
+
+/-- nothing enabled: nothing is left in the event queue -/
+theorem quiet_empty (c : Cfg) (h : SInv c) (hq : nextOp c = none) : c.evq = [] := by
+  unfold nextOp at hq
+  split at hq
+  · cases hq
+  · rename_i ht
+    split at hq
+    · cases hq
+    · rename_i hev
+      split at hq
+      · cases hq
+      · rename_i hrp
+        split at hq
+        · cases hq
+        · rename_i hany
+          -- an event would be unacknowledged, pending, requested, its reply unacknowledged and retained: the orphan
+          -- handler would match it
+          apply List.eq_nil_iff_forall_not_mem.mpr
+          intro e he
+          have heu : e.unacked = true := by
+            have := List.find?_eq_none.mp hev e he
+            simpa using this
+          have hu := h.vol.u_ev e.id (mem_uEv.mpr ⟨e, he, heu, rfl⟩)
+          rw [ht, h.nojoin] at hu
+          simp only [List.not_mem_nil, heldE_nil, or_false, false_or] at hu
+          have hs := (h.vol.p_sub _ hu).2
+          obtain ⟨_, hr⟩ := h.dur.reply _ (mem_evK he) hs
+          obtain ⟨r, hrm, hrc⟩ := List.mem_map.mp hr
+          have hru : r.unacked = true := by
+            have := List.find?_eq_none.mp hrp r hrm
+            simpa using this
+          have ho := h.vol.u_rp r.corr (mem_uRp.mpr ⟨r, hrm, hru, rfl⟩)
+          rw [h.nojoin] at ho
+          simp only [heldR_nil, List.not_mem_nil, or_false] at ho
+          apply hany
+          exact List.any_eq_true.mpr ⟨r.corr, ho, by rw [hrc]; simpa using hu⟩
+
+theorem canon_progress (c : Cfg) (h : SInv c) (op : Op) (hop : nextOp c = some op) :
+    ∃ c', step Quirks.none c op none = some c' ∧ SInv c' ∧ mu c' < mu c := by
+  obtain ⟨⟨c', hs⟩, hdec⟩ := canon_enabled c h op hop
+  refine ⟨c', hs, ?_⟩
+  cases op with
+  | ev id => have g := good_ev c c' id none h hs; exact ⟨g.inv, g.less rfl trivial⟩
+  | tm id => have g := good_tm c c' id none h hs; exact ⟨g.inv, g.less rfl hdec⟩
+  | rp corr => have g := good_rp c c' corr none h hs; exact ⟨g.inv, g.less rfl trivial⟩
+  | tick => have g := good_tick c c' none h hs; exact ⟨g.inv, g.less rfl hdec⟩
+  | crash => exact hdec.elim
+
+/-- from any reachable configuration the crash-free canonical run comes to rest with the invariant intact -/
+theorem sdrain (fuel : Nat) (c : Cfg) (h : SInv c) (hf : mu c ≤ fuel) :
+    SInv (drain Quirks.none fuel c) ∧ nextOp (drain Quirks.none fuel c) = none := by
   induction fuel generalizing c with
   | zero =>
-    rcases inv_progress c h with ⟨nextId, sent, running, rfl, hnd, hlen⟩ | ⟨op, c', _, _, _, hlt⟩
-    · exact ⟨nextId, sent, running, rfl, hnd, hlen⟩
-    · omega
+    simp only [drain]
+    refine ⟨h, ?_⟩
+    cases hop : nextOp c with
+    | none => rfl
+    | some op =>
+      obtain ⟨c', _, _, hlt⟩ := canon_progress c h op hop
+      omega
   | succ fuel ih =>
-    rcases inv_progress c h with ⟨nextId, sent, running, rfl, hnd, hlen⟩ | ⟨op, c', hn, hs, hi, hlt⟩
-    · exact ⟨nextId, sent, running, by simp [drain, nextOp, cfgEnd], hnd, hlen⟩
-    · simp only [drain, hn, hs]
+    simp only [drain, h.dur.nodiv, Bool.false_eq_true, if_false]
+    cases hop : nextOp c with
+    | none => exact ⟨h, hop⟩
+    | some op =>
+      obtain ⟨c', hs, hi, hlt⟩ := canon_progress c h op hop
+      simp only [hs]
       exact ih c' hi (by omega)
 
-/-- every executable schedule — crashes between handler invocations anywhere, any number of them — keeps the
-configuration reachable -/
-theorem inv_run (c c' : Cfg) (ops : List Op) (h : Inv N c)
-    (hr : run Quirks.none c (ops.map (fun o => (o, none))) = some c') : Inv N c' := by
+
+/-! ### exactly once, when no handler is cut short -/
+
+theorem Cons.crash {N : Nat} {c : Cfg} (h : Cons N c) : Cons N c.crash := by
+  obtain ⟨hpsi, hphi, hfresh⟩ := h
+  have hlen : c.crash.evq.length = c.evq.length := by simp [Cfg.crash]
+  have hload : load c.crash = load c := by
+    simp only [load, Cfg.crash, List.map_map]
+    congr 2
+    apply List.map_congr_left
+    intro e _
+    simp only [Function.comp]
+    split <;> rfl
+  have hin : inflight c.crash = inflight c := by
+    simp only [inflight, Cfg.crash, List.filter_map, List.length_map]
+    congr 1
+    apply List.filter_congr
+    intro e _
+    simp only [Function.comp]
+    split <;> rfl
+  refine ⟨?_, ?_, ?_⟩
+  · show c.notes + c.crash.evq.length = 1
+    rw [hlen]; exact hpsi
+  · rw [hload, hin]; exact hphi
+  · intro r hr
+    obtain ⟨r0, hr0, rfl⟩ := List.mem_map.mp hr
+    obtain ⟨e, he, hid⟩ := hfresh r0 hr0
+    refine ⟨_, List.mem_map.mpr ⟨e, he, rfl⟩, ?_⟩
+    have h1 : ∀ (x : QEv), (if x.unacked = true then { x with unacked := false, redelivered := true } else x).id = x.id := by
+      intro x; split <;> rfl
+    have h2 : ∀ (x : QRp), (if x.unacked = true then { x with unacked := false, redelivered := true } else x).corr = x.corr := by
+      intro x; split <;> rfl
+    rw [h1, h2]; exact hid
+
+theorem cons_step (N : Nat) (c c' : Cfg) (op : Op) (h : SInv c) (hc : Cons N c)
+    (hs : step Quirks.none c op none = some c') : Cons N c' := by
+  cases op with
+  | ev id => exact (good_ev c c' id none h hs).cons rfl N hc
+  | tm id => exact (good_tm c c' id none h hs).cons rfl N hc
+  | rp corr => exact (good_rp c c' corr none h hs).cons rfl N hc
+  | tick => exact (good_tick c c' none h hs).cons rfl N hc
+  | crash =>
+    unfold step at hs
+    rw [if_neg (by simp [h.dur.nodiv])] at hs
+    simp only [Option.some.injEq] at hs
+    subst hs
+    exact hc.crash
+
+/-- every executable schedule whose crashes fall between handler invocations keeps the conservation laws -/
+theorem cons_run (N : Nat) (c c' : Cfg) (ops : List Op) (h : SInv c) (hc : Cons N c)
+    (hr : run Quirks.none c (ops.map (fun o => (o, none))) = some c') : Cons N c' := by
   induction ops generalizing c with
-  | nil => simp [run] at hr; exact hr ▸ h
+  | nil => simp [run] at hr; exact hr ▸ hc
   | cons op rest ih =>
     simp only [List.map_cons, run] at hr
     split at hr
     · rename_i c1 h1
-      exact ih c1 (inv_step c c1 op h h1) hr
+      exact ih c1 (sinv_step c c1 op none h h1) (cons_step N c c1 op h hc h1) hr
     · cases hr
-end
+
+theorem sdrain_cons (N : Nat) (fuel : Nat) (c : Cfg) (h : SInv c) (hc : Cons N c) :
+    Cons N (drain Quirks.none fuel c) := by
+  induction fuel generalizing c with
+  | zero => simpa [drain] using hc
+  | succ fuel ih =>
+    simp only [drain, h.dur.nodiv, Bool.false_eq_true, if_false]
+    cases hop : nextOp c with
+    | none => exact hc
+    | some op =>
+      obtain ⟨c', hs, hi, _⟩ := canon_progress c h op hop
+      simp only [hs]
+      exact ih c' hi (cons_step N c c' op h hc hs)
+
+theorem cons_init (sk : Sk) : Cons (tasksIn sk) (init sk) := by
+  refine ⟨by simp [init], by simp [load, inflight, init, todoOf], by simp [init]⟩
+
+/-- the configuration of an execution that has ended: one terminal notification, nothing in the queues, nothing in the
+engine's memory -/
+structure Ended (N : Nat) (c : Cfg) : Prop where
+  evq : c.evq = []
+  rpq : c.rpq = []
+  notes : c.notes = 1
+  sentnd : c.sent.Nodup
+  sentlen : c.sent.length = N
+  timers : c.timers = []
+  pending : c.pending = []
+  orphans : c.orphans = []
+  joins : c.joins = []
+
+theorem ended_of_quiet {N : Nat} {c : Cfg} (h : SInv c) (hc : Cons N c) (hq : nextOp c = none) : Ended N c := by
+  have hev := quiet_empty c h hq
+  obtain ⟨hpsi, hphi, hfresh⟩ := hc
+  have hrp : c.rpq = [] := by
+    apply List.eq_nil_iff_forall_not_mem.mpr
+    intro r hr
+    obtain ⟨e, he, _⟩ := hfresh r hr
+    rw [hev] at he; cases he
+  refine ⟨hev, hrp, ?_, h.dur.sentnd, ?_, ?_, ?_, ?_, h.nojoin⟩
+  · rw [hev] at hpsi; simpa using hpsi
+  · simp only [load, inflight, hev, List.map_nil, List.sum_nil, List.filter_nil, List.length_nil] at hphi; omega
+  · apply List.eq_nil_iff_forall_not_mem.mpr
+    intro t ht; have := h.vol.t_sub t ht; rw [hev] at this; cases this
+  · apply List.eq_nil_iff_forall_not_mem.mpr
+    intro t ht; have := (h.vol.p_sub t ht).1; rw [hev] at this; cases this
+  · apply List.eq_nil_iff_forall_not_mem.mpr
+    intro t ht; have := h.vol.o_sub t ht; rw [hrp] at this; cases this
 
 end Asl.Crash
